@@ -6,6 +6,8 @@ package cmd
 import (
 	"errors"
 	"fmt"
+	"os"
+	"path/filepath"
 	"regexp"
 	"strconv"
 	"strings"
@@ -50,6 +52,41 @@ func resetIndex(rootGoitPath string, logRecord *store.LogRecord, index *store.In
 	}
 
 	return nil
+}
+
+// clearTrackedConflicts removes files tracked before the reset which stand where the
+// target snapshot needs a directory, or which fill a directory where it needs a file.
+// Directories are removed only when empty, so untracked content is never deleted.
+func clearTrackedConflicts(rootGoitPath string, trackedBefore []string, index *store.Index) {
+	rootDir := filepath.Dir(rootGoitPath)
+	wasTracked := make(map[string]bool)
+	for _, path := range trackedBefore {
+		wasTracked[path] = true
+	}
+	for _, entry := range index.Entries {
+		path := string(entry.Path)
+		for dir := filepath.Dir(path); dir != "."; dir = filepath.Dir(dir) {
+			if !wasTracked[dir] {
+				continue
+			}
+			if info, err := os.Lstat(filepath.Join(rootDir, dir)); err == nil && info.Mode().IsRegular() {
+				_ = os.Remove(filepath.Join(rootDir, dir))
+			}
+		}
+		if info, err := os.Lstat(filepath.Join(rootDir, path)); err != nil || !info.IsDir() {
+			continue
+		}
+		for _, tracked := range trackedBefore {
+			if !strings.HasPrefix(tracked, path+"/") {
+				continue
+			}
+			_ = os.Remove(filepath.Join(rootDir, tracked))
+			for dir := filepath.Dir(tracked); dir != path; dir = filepath.Dir(dir) {
+				_ = os.Remove(filepath.Join(rootDir, dir))
+			}
+		}
+		_ = os.Remove(filepath.Join(rootDir, path))
+	}
 }
 
 func resetWorkingTree(rootGoitPath string, index *store.Index) error {
@@ -118,6 +155,12 @@ var resetCmd = &cobra.Command{
 			}
 		}
 
+		// paths tracked before the reset
+		var trackedBefore []string
+		for _, entry := range client.Idx.Entries {
+			trackedBefore = append(trackedBefore, string(entry.Path))
+		}
+
 		// reset index
 		if isMixed || isHard {
 			if err := resetIndex(client.RootGoitPath, logRecord, client.Idx); err != nil {
@@ -127,6 +170,7 @@ var resetCmd = &cobra.Command{
 
 		// reset working tree
 		if isHard {
+			clearTrackedConflicts(client.RootGoitPath, trackedBefore, client.Idx)
 			if err := resetWorkingTree(client.RootGoitPath, client.Idx); err != nil {
 				return fmt.Errorf("fail to reset working tree: %w", err)
 			}
